@@ -1079,4 +1079,55 @@ def R3_errors_become_responses(ctx):
     ctx.check(all(a[0] == "call" and a[1].startswith("routee_compass::plugin::input::input_plugin_ops::package_error") for a in alts), "package_invariant_error:ends-in-package_error", "package_invariant_error does not return package_error(..)", pi.where())
 
 
-RULES = [R1_inventory, R2_loops, R3_errors_become_responses]
+def R4_ill_typed_fields(ctx):
+    """C12.R4 a present but ill-typed query field is an error, not an absent field"""
+    F = ctx.F
+    ctx.rule("C12.R4", "in the Result-returning query accessors (InputJsonExtensions for serde_json::Value) every `Value::as_*` conversion of a query field flows, through map adaptors only, into ok_or / ok_or_else whose Err is returned: a field of the wrong JSON type yields an error response instead of being treated as missing", floor=8)
+    AS = re.compile(r"^serde_json::(value::)?Value::as_(u64|i64|f64|str|bool|array|object)$")
+    n = 0
+    for p, b in sorted(F.bodies.items()):
+        root = p.split("::{closure")[0]
+        rb = F.bodies.get(root)
+        if rb is None or "InputJsonExtensions>::get_" not in root or not root.startswith("<serde_json::"):
+            continue
+        if "Result<" not in rb.locals[0].get("ty", ""):
+            continue
+        tm = Terms(b, keep_transparent=True) if False else Terms(b)
+        for c in b.calls():
+            if not (c.callee and AS.match(c.callee)):
+                continue
+            n += 1
+            inst = "%s:%s" % (short_fn_name(root), c.callee.split("::")[-1])
+            if "{closure" in p:
+                # inside a closure handed to map / and_then: acceptable only if the closure itself turns None into Err
+                oo = [x for x in b.calls() if re.search(r"Option::<T>::ok_or(_else)?$", x.callee or "") and root_local(b, x.args[0]) == c.dest["l"]]
+                ctx.check(bool(oo), inst, "the conversion sits inside a closure (and_then / map over an optional field) without ok_or: a wrong JSON type is merged with 'field absent'", c.where(), detail="as_*().ok_or_else(invalid type)")
+                continue
+            # follow the Option through map adaptors to an ok_or / ok_or_else
+            l = c.dest["l"]
+            ok = False
+            for _ in range(4):
+                users = [x for x in b.calls() if x.args and root_local(b, x.args[0]) == l and x is not c]
+                oo = [x for x in users if re.search(r"Option::<T>::ok_or(_else)?$", x.callee or "")]
+                if oo:
+                    pr = try_propagation(b, oo[0], tm)
+                    ok = pr["kind"] in ("propagated", "returned") or error_flow(F, b, oo[0], tm).get("ok", False)
+                    break
+                mp = [x for x in users if re.search(r"Option::<T>::map$", x.callee or "")]
+                if len(mp) == 1 and mp[0].dest is not None:
+                    l = mp[0].dest["l"]
+                    continue
+                break
+            if not ok:
+                # match form: the None arm of a match on the conversion returns Err
+                ct = tm.call_term(c.term, c.bb)
+                for sbb, dt, names, t in switches(b, tm):
+                    if names and dt == ("discr", ct):
+                        tgt = switch_target(t, names, "None")
+                        vals = region_value(b, (sbb, tgt))
+                        ok = bool(vals) and all(is_err_value(deep_strip(v)) or result_variant(nosite(deep_strip(v))) == "Err" for _, v in vals)
+            ctx.check(ok, inst, "the None of this conversion (field present with the wrong JSON type) does not become an Err of the accessor", c.where(), detail="as_*().ok_or_else(invalid type)?")
+    ctx.check(n >= 8, "conversion-sites", "only %d as_* conversions found in the query accessors" % n, None)
+
+
+RULES = [R1_inventory, R2_loops, R3_errors_become_responses, R4_ill_typed_fields]
